@@ -21,7 +21,7 @@ ID = "C12"
 LEVEL = "exploration"
 RULE = (
     "Histories (Hypothesis RuleBasedStateMachine, 25/50 steps) over an alphabet of 18 solve specifications (shapes 6x5, 8x8, 7x9, "
-    "9x4; modes below/at/default; single and double precision; footprint and dispersion; single/multiple/unsorted levels; analytic; "
+    "9x4; modes below/at/default; single and double precision (one twin pair on a fine grid where the shooting solutions grow by e^11); footprint and dispersion; single/multiple/unsorted levels; analytic; "
     "halo default/0/fractional; two specs differ from another only in the domain resp. the profiles, two more are near twins (8th digit) of other specs; the source array is one object per grid shape, refilled in place before every solve) each solvable in three representations of the same argument values (C / Fortran / transposed-view source, tuples or lists of profile arrays, Python ints, floats, NumPy scalars or persistent NumPy arrays for domain, halo, measurement point, levels, modes and background; no argument may be modified in place), and the operations set_threads(1..8), reset_fft_manager(), write-and-truncate the FFTW wisdom file "
     "then reset. Model: the first result seen for (spec, threads) - every later result for the same key must be bit-identical; every "
     "result must agree with the same solve done as the only solve of a fresh spawned single-threaded process (one process per spec) to 1e-12 of the field maximum (double; "
@@ -29,7 +29,7 @@ RULE = (
     "repeat of a spec after a different shape was solved; distinct = canonical JSON of the step list."
 )
 ASSUMPTIONS = [
-    "the specs keep the shooting growth of the highest retained mode below e^2.1 (G <= 8): with the original G = 2e4 a one-ulp difference between thread settings is amplified to 3e-12 of the field maximum, i.e. the property's 1e-12 would be a statement about rounding amplification, not about purity",
+    "the specs keep the shooting growth of the highest retained mode below e^2.1 (G <= 8): with the original G = 2e4 a one-ulp difference between thread settings is amplified to 3e-12 of the field maximum, i.e. the property's 1e-12 would be a statement about rounding amplification, not about purity; the one exception is the footprint pair 18/19 (growth e^11, compared across threads at 1e-12 + 4096 eps G = 6e-8), which exists for the single-vs-double clause: storage rounding stays ~1e-7 of the maximum whatever the growth, while rounding the growing shooting solutions themselves to single precision does not",
     "thread interleavings inside numba/OpenMP/FFTW are sampled through thread counts and repetition, not owned by the harness",
     "the wisdom file is the one the FFT manager reads from the working directory (fftw_wisdom.pkl)",
 ]
@@ -66,11 +66,16 @@ def _spec_inputs(k):
         # default halo on 12x12 square cells = a 36x36 padded grid (threaded FFT plans differ from serial ones at such sizes)
         (4, (512, 512), "double", False, 3, False, None),
         (4, (512, 512), "double", False, [2, 4], True, None),
+        # cells of 9 m x 7.5 m under the 5 m column: the shooting solutions grow by ~e^11 before they are combined.
+        # Double precision absorbs that (rounding ~1e-11 of the maximum); its single-precision twin must still differ
+        # by storage rounding only, which it does as long as the combination happens before the result is stored
+        (1, (8, 8), "double", True, [1, 4], False, 0.0),
+        (1, (8, 8), "single", True, [1, 4], False, 0.0),
     ]
     si, modes, prec, fp, lv, ana, halo = table[k]
     ny, nx = shapes[si]
     j, i = np.meshgrid(np.arange(ny), np.arange(nx), indexing="ij")
-    kq = {1: 0, 3: 2, 12: 0, 13: 5, 15: 14}.get(k, k)  # a single-precision spec and its double-precision twin share the source
+    kq = {1: 0, 3: 2, 12: 0, 13: 5, 15: 14, 19: 18}.get(k, k)  # a single-precision spec and its double-precision twin share the source
     q = np.cos(0.9 * i + 0.3 * j * j) + 0.2 * i + 0.15 * kq * np.sin(1.7 * j + kq)
     z = np.array([0.05, 0.5, 1.2, 2.2, 3.5, 5.0])
     u = 1.1 * np.log(z / 0.04) * (0.9 if not ana else 0 * z + 1)
@@ -87,20 +92,22 @@ def _spec_inputs(k):
         u, K = u * (1.0 + 1e-8), K * (1.0 - 2e-8)
     if k in (14, 15):
         q = (q + 0.8) * 1e-8
-    return dict(q=q, z=z, profiles=(u, v, K, 0.7 * K, 1.2 * K), domain=(240.0 * nx * dscale, (240.0 if k in (16, 17) else 180.0) * ny), levels=lv, modes=modes,
-                meas_pt=(240.0 * (nx // 3), 180.0 * (ny // 2)) if fp else (0.0, 0.0), bg=0.0 if k in (14, 15) else 1.0, footprint=fp, analytic=ana,
+    cx, cy = (9.0, 7.5) if k in (18, 19) else (240.0, 240.0 if k in (16, 17) else 180.0)
+    return dict(q=q, z=z, profiles=(u, v, K, 0.7 * K, 1.2 * K), domain=(cx * nx * dscale, cy * ny), levels=lv, modes=modes,
+                meas_pt=(cx * (nx // 3), cy * (ny // 2)) if fp else (0.0, 0.0), bg=0.0 if k in (14, 15) else 1.0, footprint=fp, analytic=ana,
                 halo=halo, precision=prec)
 
 
-NSPEC = 18
+NSPEC = 20
 _QBUF = {}
 _PERSIST = {}
 
 
 class ArgumentMutated(Exception):
     pass
-TWIN = {1: 0, 3: 2, 15: 14}  # single-precision spec -> its double-precision twin
-SHAPE_OF = [0, 0, 1, 1, 2, 2, 3, 1, 3, 0, 0, 0, 0, 2, 1, 1, 4, 4]
+TWIN = {1: 0, 3: 2, 15: 14, 19: 18}  # single-precision spec -> its double-precision twin
+SHAPE_OF = [0, 0, 1, 1, 2, 2, 3, 1, 3, 0, 0, 0, 0, 2, 1, 1, 4, 4, 1, 1]
+HIGH_GROWTH = (18, 19)  # rounding of the double-precision result is ~eps*e^10, not eps: compared at (1e-12 + 4096 eps e^11.1) = 6e-8 across threads
 
 
 def _represent(a, rep):
@@ -299,7 +306,7 @@ class History:
             self.first[key] = (c.copy(), f.copy())
         rc, rf = reference()[k]
         single = c.dtype == np.float32
-        rel = 1e-12 if not single else 1e-6
+        rel = (1e-12 if k not in HIGH_GROWTH else 6e-8) if not single else 1e-6
         for name, a, b in (("conc", c, rc), ("flux", f, rf)):
             if a.shape != b.shape or a.dtype != b.dtype:
                 fails.append(f"spec {k}: {name} has shape/dtype {a.shape}/{a.dtype}, fresh process gives {b.shape}/{b.dtype}")
